@@ -28,6 +28,7 @@ UNITS = {
     'MESSAGE': dict(template='message.rs', rlimit=30),
     'SEQACCESS': dict(template='seqaccess.rs', rlimit=30),
     'HDRCODEC': dict(template='hdrcodec.rs', rlimit=30),
+    'PRODUCER': dict(template='producer.rs', rlimit=30),
 }
 
 VARW = 'PROVED for every value (units SERSTR + READERS): strings, symbols and binaries of ANY length and content, outside and inside arrays -- the serializer writes a valid str8/str32, sym8/sym32, vbin8/vbin32 encoding whose size field counts octets ([C05.*.encoding], [C05.*.array-element]); the decoder reads both width variants by the AMQP layout and accepts every one of them from a reliable reader ([C05.*.decoding], [C05.*.every-variant-accepted]); lemma_var_round_trip joins the two: decode(encode(x) ++ rest) == x, consuming exactly the encoding; serialized_size agrees with the octets written ([C20.size.*]); compound headers are decoded to the body length and count the layout defines ([C05.compound.header-decoding])'
@@ -156,7 +157,7 @@ PROPS = {
             'only the sequential stages are under contract: session hold-back/stamping (SESSION) and frame splitting (FRAMEENC); link-level split, reassembly and the codec round trip are separate units where built',
             'mpsc hand-offs, engine select! loops, credit/window liveness under scheduling, and all configurations x schedules are NOT decided']),
     'C08': dict(
-        units=['LINKFLOW', 'SENDSPLIT'], kani=[], level='proof', title='Sender link credit',
+        units=['LINKFLOW', 'SENDSPLIT', 'PRODUCER'], kani=[], level='proof', title='Sender link credit',
         lemmas={'LINKFLOW': ['lemma_c08_consume_preserves_limit', 'lemma_c08_flow_establishes_limit']},
         assumptions=[ASYNC,
             'NOT DECIDED: "a send waiting for credit completes however the grant races with the wait" (notified().await vs notify_waiters is a two-task schedule property; no thread model in either verifier)',
